@@ -4,14 +4,18 @@ import updfam
 import vlib
 
 PID = "C08"
+NEEDS_CLI = True
 RULE = ("file trees (main file with 0..3 included files, several includes per file; files of 0..20 bytes, empty files, lone `halt`, "
         "trailing blank lines 0..20, large files) rewritten by Runner::update_test_file against a scripted database: (a) uninterrupted: "
         "every original file is read back at EVERY database request and must equal its old or its complete new content; completion without "
         "panic; every rewritten file equals the model's prediction (its own records only), ends with exactly one newline, no *.temp remains; "
         "(b) the mock driver panics at request k for EVERY k up to the number of requests: afterwards every original file equals its old or "
-        "its complete new content; distinct = distinct tree+answers+k; non-trivial = at least one file changes or a crash is injected")
+        "its complete new content; (c) the real binary `sqllogictest --override` against the scripted engine over trees with includes: the engine sends "
+        "SIGKILL to the CLI at its k-th request for EVERY k; afterwards every original file equals its old or the complete new content of the "
+        "uninterrupted run, which itself must complete, leave no *.temp and end every file with one newline; "
+        "distinct = distinct tree+answers+k; non-trivial = at least one file changes or a crash is injected")
 ASSUMPTIONS = ["partial: durability (fsync ordering after power loss), non-POSIX file systems and concurrent writers are outside the model; "
-               "rename(2) is assumed atomic", "the CLI copy of the updater is exercised through `--format` in C05 and through SIGKILL runs when the CLI harness is available",
+               "rename(2) is assumed atomic", "the CLI copy of the updater is exercised through `--format` in C05 and through the SIGKILL runs (c)",
                "temp names are fresh (library: name + 10 random digits + .temp); a tree containing such a name is outside the premise"]
 
 
@@ -32,14 +36,114 @@ def generate(rng, tier):
                 if f[1] == "file" and rng.random() < 0.6:
                     f[2] = f[2] + "\n" * rng.randint(0, 20)
         cases.append(c)
+    for i in range(5 if tier == "quick" else 60):
+        cases.append(gen_cli_tree(rng, i))
     return cases
 
 
+def gen_cli_tree(rng, i):
+    """a main file with 0..2 included files; every file holds records some of which the engine's constant answer `1` contradicts"""
+    def recs(tag, n):
+        out = []
+        for j in range(n):
+            k = rng.randrange(4)
+            if k == 0:
+                out.append("query I\nselect %s_%d\n----\n%s\n" % (tag, j, rng.choice(["1", "2", "7\n8"])))
+            elif k == 1:
+                out.append("statement ok\nselect %s_%d\n" % (tag, j))
+            elif k == 2:
+                out.append("statement error\nselect %s_%d\n" % (tag, j))
+            else:
+                out.append("query T rowsort\nselect %s_%d\n----\nzzz\n" % (tag, j))
+        return out
+    ninc = rng.randint(0, 2)
+    files = []
+    main = recs("M", rng.randint(1, 4))
+    for a in range(ninc):
+        name = "inc/f%d.slt" % a
+        body = recs("I%d" % a, rng.randint(0, 3))
+        text = "\n".join(body) + ("\n" * rng.randint(0, 10) if rng.random() < 0.5 else "")
+        if rng.random() < 0.15:
+            text = ""
+        files.append([name, text])
+        main.insert(rng.randint(0, len(main)), "include %s\n" % name)
+    files.insert(0, ["main.slt", "\n".join(main) + "\n" * rng.randint(0, 9)])
+    return {"kind": "clikill", "files": files, "meta": {"src": "cli-kill", "i": i}}
+
+
+def read_tree(sb, files):
+    import os
+    out = {}
+    for rel, _ in files:
+        p = os.path.join(sb.dir, rel)
+        out[rel] = open(p, newline="").read() if os.path.exists(p) else None
+    debris = []
+    for root, _, names in os.walk(sb.dir):
+        debris += [n for n in names if n.endswith(".temp")]
+    return out, debris
+
+
+def execute_cli_kill(cases, tier, disagreements, cats, keys):
+    import clirun
+    n = 0
+    for c in cases:
+        old = {rel: t for rel, t in c["files"]}
+        sb = clirun.Sandbox("c08")
+        try:
+            sb.write_files(c["files"])
+            r = sb.run(["--override", "main.slt"], scenario={"rules": []}, timeout=60)
+            new, debris = read_tree(sb, c["files"])
+        finally:
+            sb.close()
+        n += 1
+        nreq = sum(1 for e in r["events"] if e["ev"] == "SQL")
+        spec = None
+        if r["hung"] or r["rc"] != 0:
+            spec = "contradicts L1 (C08_final): `--override` did not complete (rc=%r): %s" % (r["rc"], r["stderr"][-300:])
+        elif debris:
+            spec = "contradicts L1 (C08_final): temporary files remain after completion: %r" % debris
+        else:
+            for rel, t in new.items():
+                if t is None:
+                    spec = "contradicts L1: file %s vanished" % rel
+                elif t != "" and (not t.endswith("\n") or t.endswith("\n\n")):
+                    spec = "contradicts L1 (C08_final): rewritten file %s does not end with exactly one newline: %r" % (rel, t[-20:])
+        cats["cli uninterrupted=%s" % ("ok" if spec is None else "bad")] += 1
+        if spec:
+            disagreements.append({"case": c, "impl": {"rc": r["rc"], "new": new, "debris": debris}, "model": None, "spec": spec, "broken": "corr_C08_cli"})
+            continue
+        if any(new[k] != old[k] for k in old):
+            keys.add(repr(c["files"]))
+        for k in range(1, nreq + 1):
+            sb = clirun.Sandbox("c08")
+            try:
+                sb.write_files(c["files"])
+                r2 = sb.run(["--override", "main.slt"], scenario={"rules": [{"at_request": k, "signal": "KILL", "grace_ms": 30}]}, timeout=60)
+                cur, _ = read_tree(sb, c["files"])
+            finally:
+                sb.close()
+            n += 1
+            cats["cli sigkill"] += 1
+            keys.add(repr((c["files"], k)))
+            if r2["rc"] != -9:
+                cats["cli sigkill: process not killed (rc=%r)" % r2["rc"]] += 1
+            for rel in old:
+                if cur[rel] != old[rel] and cur[rel] != new[rel]:
+                    disagreements.append({"case": dict(c, k=k), "impl": {"rc": r2["rc"], "file": rel, "content": cur[rel]}, "model": {"old": old[rel], "new": new[rel]},
+                                          "spec": "contradicts L1 (C08_atomic): after SIGKILL of the CLI at request %d of %d file %s holds neither its old nor its complete new content: %r"
+                                                  % (k, nreq, rel, (cur[rel] or "")[:120]), "broken": "corr_C08_cli"})
+                    break
+    return n
+
+
 def execute(cases, tier):
-    rows, vm_n = updfam.execute(cases, tier, PID)
+    cli_cases = [c for c in cases if c.get("kind") == "clikill"]
+    cases = [c for c in cases if c.get("kind") != "clikill"]
+    rows, vm_n = updfam.execute(cases, tier, PID) if cases else ([], 0)
     disagreements = []
     cats = collections.Counter()
     keys = set()
+    ncli = execute_cli_kill(cli_cases, tier, disagreements, cats, keys)
     crash_cases = []
     for row in rows:
         c, o, m = row["case"], row["out"], row["model"]
@@ -117,7 +221,7 @@ def execute(cases, tier):
             if spec:
                 disagreements.append({"case": c, "impl": {"update1": o.get("update1"), "listing1": o.get("listing1")}, "model": c["meta"]["new"],
                                       "spec": spec, "broken": "corr_C08_crash"})
-    stats = {"evaluations": len(cases) + len(crash_cases), "model_evaluations": len(rows), "distinct_nontrivial": len(keys), "rule": RULE,
+    stats = {"evaluations": len(cases) + len(crash_cases) + ncli, "cli_runs": ncli, "model_evaluations": len(rows), "distinct_nontrivial": len(keys), "rule": RULE,
              "categories": dict(sorted(cats.items())), "vm_compute_crosschecked": vm_n, "crash_points": len(crash_cases),
              "samples": [{"files": c["files"], "answers": c["answers"][:3]} for c in cases[:2]], "disagreements": len(disagreements)}
     return {"stats": stats, "disagreements": disagreements, "known_hits": [], "observables": []}
